@@ -62,7 +62,7 @@ __CPROVER_requires (VP_MU_IS (mu) && VP_W_IS (w))
 __CPROVER_requires (VP_IDLE () && !vp_g.queued)
 __CPROVER_requires ((clear == 0 && !vp_g.waited) || (clear == MU_DESIG_WAKER && vp_g.waited))
 __CPROVER_ensures (vp_g.hold == VP_HOLD_OF (l_type) && !vp_g.spin && !vp_g.dead && !vp_g.waited && !vp_g.queued)
-__CPROVER_assigns (VP_G_ALL, vp_fw, mu->word, mu->waiters, w->cv_mu, w->cond, w->l_type, w->nw.waiting);
+__CPROVER_assigns (VP_G_ALL, VP_FW_DATA, mu->word, mu->waiters, w->cv_mu, w->cond, w->l_type, w->nw.waiting);
 
 int nsync_mu_trylock (nsync_mu *mu)
 __CPROVER_requires (VP_TYPES_OK () && VP_MU_IS (mu) && VP_IDLE () && !vp_g.waited && !vp_g.queued)
@@ -79,12 +79,12 @@ __CPROVER_assigns (VP_G_STEP, mu->word);
 void nsync_mu_lock (nsync_mu *mu)
 __CPROVER_requires (VP_TYPES_OK () && VP_MU_IS (mu) && VP_IDLE () && !vp_g.waited && !vp_g.queued)
 __CPROVER_ensures (vp_g.hold == VP_WRITER && !vp_g.spin && !vp_g.dead)
-__CPROVER_assigns (VP_G_ALL, vp_fw, vp_my_w, vp_reg.my_waiting, mu->word, mu->waiters);
+__CPROVER_assigns (VP_G_ALL, VP_FW_DATA, vp_my_w, vp_reg.my_waiting, mu->word, mu->waiters);
 
 void nsync_mu_rlock (nsync_mu *mu)
 __CPROVER_requires (VP_TYPES_OK () && VP_MU_IS (mu) && VP_IDLE () && !vp_g.waited && !vp_g.queued)
 __CPROVER_ensures (vp_g.hold == VP_READER && !vp_g.spin && !vp_g.dead)
-__CPROVER_assigns (VP_G_ALL, vp_fw, vp_my_w, vp_reg.my_waiting, mu->word, mu->waiters);
+__CPROVER_assigns (VP_G_ALL, VP_FW_DATA, vp_my_w, vp_reg.my_waiting, mu->word, mu->waiters);
 
 /* this thread's waiter record: fresh, and its waiting flag is the one under the waiting-flag protocol */
 waiter *nsync_waiter_new_ (void)
@@ -105,17 +105,17 @@ __CPROVER_requires (vp_g.hold == VP_HOLD_OF (l_type) && !vp_g.spin && !vp_g.dead
 __CPROVER_ensures (vp_g.hold == VP_NONE && !vp_g.spin && (!vp_g.dead || vp_g.release_ctx))
 __CPROVER_ensures (vp_g.queued == __CPROVER_old (vp_g.queued) && vp_g.waited == __CPROVER_old (vp_g.waited))
 __CPROVER_ensures (vp_g.p_calls == __CPROVER_old (vp_g.p_calls) && vp_g.last_sem_outcome == __CPROVER_old (vp_g.last_sem_outcome))
-__CPROVER_assigns (VP_G_ALL, vp_fw, mu->word, mu->waiters);
+__CPROVER_assigns (VP_G_ALL, VP_FW_DATA, mu->word, mu->waiters);
 
 void nsync_mu_unlock (nsync_mu *mu)
 __CPROVER_requires (VP_TYPES_OK () && VP_MU_IS (mu) && vp_g.hold == VP_WRITER && !vp_g.spin && !vp_g.dead)
 __CPROVER_ensures (vp_g.hold == VP_NONE && !vp_g.spin)
-__CPROVER_assigns (VP_G_ALL, vp_fw, mu->word, mu->waiters);
+__CPROVER_assigns (VP_G_ALL, VP_FW_DATA, mu->word, mu->waiters);
 
 void nsync_mu_runlock (nsync_mu *mu)
 __CPROVER_requires (VP_TYPES_OK () && VP_MU_IS (mu) && vp_g.hold == VP_READER && !vp_g.spin && !vp_g.dead)
 __CPROVER_ensures (vp_g.hold == VP_NONE && !vp_g.spin)
-__CPROVER_assigns (VP_G_ALL, vp_fw, mu->word, mu->waiters);
+__CPROVER_assigns (VP_G_ALL, VP_FW_DATA, mu->word, mu->waiters);
 
 /* Spin until (*w & test) == 0, then *w = (*w | set) & ~clear with acquire order.  On the mutex word it is used
    only to take the queue spinlock (possibly announcing a waiter): the caller must not own the spinlock. */
@@ -135,7 +135,7 @@ __CPROVER_assigns (*w, vp_g.spin, vp_g.enq_count, vp_g.enq_long, vp_g.last_new);
 void nsync_mu_unlock_without_wakeup (nsync_mu *mu)
 __CPROVER_requires (VP_TYPES_OK () && VP_MU_IS (mu) && vp_g.hold == VP_WRITER && !vp_g.spin && !vp_g.dead)
 __CPROVER_ensures (vp_g.hold == VP_NONE && !vp_g.spin)
-__CPROVER_assigns (VP_G_ALL, vp_fw, mu->word, mu->waiters);
+__CPROVER_assigns (VP_G_ALL, VP_FW_DATA, mu->word, mu->waiters);
 
 /* queue-link helper, abstracted in word-level proofs (its exact behaviour on the links is proved under C06/C17) */
 nsync_dll_list_ nsync_remove_from_mu_queue_ (nsync_dll_list_ mu_queue, nsync_dll_element_ *e)
@@ -171,6 +171,6 @@ int nsync_mu_wait_with_deadline (nsync_mu *mu, int (*condition) (const void *con
 __CPROVER_requires (VP_PRE_MU_WAIT (mu, condition))
 __CPROVER_ensures (VP_POST_MU_WAIT_HOLD (__CPROVER_old (vp_g.hold)))
 __CPROVER_ensures (VP_POST_MU_WAIT_RESULT (__CPROVER_return_value, condition))
-__CPROVER_assigns (VP_G_ALL, vp_fw, vp_my_w, vp_reg.my_waiting, mu->word, mu->waiters);
+__CPROVER_assigns (VP_G_ALL, VP_FW_DATA, vp_my_w, vp_reg.my_waiting, mu->word, mu->waiters);
 
 #endif
